@@ -102,10 +102,10 @@ def history_cases(ctx: Ctx) -> list[dict]:
                 ("MC_TypeSystem_hist_n3.cfg", "histories_exhaustive_3_classes_depth2")]
         n_sim, depth = 800, 12
     for cfg, note in plan:
-        got = ctx.behaviours("MC_TypeSystem", cfg)
+        got = ctx.behaviours("MC_TypeSystem", cfg, timeout=6000)
         ctx.notes[note] = len(got)
         cases += got
-    sims = ctx.simulate("MC_TypeSystem", "MC_TypeSystem_hist_sim.cfg", num=n_sim, depth=depth)
+    sims = ctx.simulate("MC_TypeSystem", "MC_TypeSystem_hist_sim.cfg", num=n_sim, depth=depth, timeout=6000)
     k = 0
     for st in sims:
         if st.get("out"):
@@ -131,7 +131,7 @@ def run_histories(ctx: Ctx) -> None:
                                   tuple(x["k"] for x in t["ev"][1:-1]))))
         ctx.evaluations += len(t["ev"][-1]["asked"])
     chunk = max(200, -(-len(traces) // 3))
-    verdicts = ctx.validate("TypeSystemHistTrace", traces, chunk=chunk, workers=4)
+    verdicts = ctx.validate("TypeSystemHistTrace", traces, chunk=chunk, workers=4, timeout=6000)
     for idx, bad in sorted(verdicts.items()):
         tr = traces[idx]
         for clause, step in bad:
